@@ -69,6 +69,7 @@ Proof.
   unfold call_scrypt.
   destruct (scrypt_dom (sp_r s) (sp_p s) 32) eqn:Dm; smp; [|discriminate].
   destruct (scrypt_params_ok (sp_n s) (sp_r s) (sp_p s)) eqn:Pk; smp; [|discriminate].
+  destruct (scrypt_alloc_ok (sp_n s) (sp_r s)); smp; [|discriminate].
   intros H. split; [reflexivity|]. split; [|exact H].
   unfold scrypt_pre. rewrite Dm, Pk. reflexivity.
 Qed.
